@@ -50,6 +50,24 @@ def pred (p : String) : Option (Reg → Bool) :=
   | ["all"] => some (fun _ => true)
   | _ => none
 
+/-- a filter whose predicate has memory: every element is shown to it exactly once — numbers, then texts, enums,
+    field lists, each in order — and the answer given then decides -/
+def filterWithState {σ} (rl : RegList) (init : σ) (step : σ → Reg → σ × Bool) : RegList :=
+  let go := fun (st : σ) (l : List Reg) =>
+    l.foldl (fun (acc : σ × List Reg) r => let (st', keep) := step acc.1 r; (st', if keep then acc.2 ++ [r] else acc.2)) (st, [])
+  let (s1, n) := go init rl.n
+  let (s2, t) := go s1 rl.t
+  let (s3, e) := go s2 rl.e
+  let (_, f) := go s3 rl.f
+  ⟨n, t, e, f⟩
+
+def statefulFilter (rl : RegList) (p : String) : Option RegList :=
+  match p.splitOn ":" with
+  | ["first", k] => k.toNat?.map (fun k => filterWithState rl 0 (fun seen _ => (seen + 1, decide (seen + 1 ≤ k))))
+  | ["dedup"] => some (filterWithState rl ([] : List String) (fun seen r => if seen.contains r.name then (seen, false) else (r.name :: seen, true)))
+  | ["alt"] => some (filterWithState rl false (fun keep _ => (!keep, !keep)))
+  | _ => none
+
 def regOp (rl : RegList) (op : String) : Option RegList :=
   match op.splitOn "=" with
   | ["a", idxs] => do
@@ -58,7 +76,9 @@ def regOp (rl : RegList) (op : String) : Option RegList :=
     -- one Append call per register, to the sequence of its kind
     pure (rs.foldl (fun (acc : RegList) r =>
       if r.kind == 1 then acc.appendN [r] else if r.kind == 2 then acc.appendT [r] else if r.kind == 3 then acc.appendE [r] else acc.appendF [r]) rl)
-  | ["f", p] => (pred p).map rl.filter
+  | ["f", p] => match statefulFilter rl p with
+    | some r => some r
+    | none => (pred p).map rl.filter
   | ["n", names] => some (rl.filterByName (if names = "" then [] else names.splitOn ","))
   | ["s", spec] =>
     -- a register with an arbitrary name and sort key: "<kind>.<sort>.<name>"
